@@ -163,52 +163,126 @@ Fixpoint children_firstb (ds : Z -> hist) (n : nat) (before : list Z) (l : list 
                  && children_firstb ds n (r :: before) rest
   end.
 
+(* ------------------------------------------------------------------ what the producer does, step by step
+
+   The same walk, returning the sequence of ACTIONS of the producer goroutine instead of only
+   the ids sent: a datasource lookup (o.ds.RelationHistory), or a send on the channel.  The ids
+   sent are [sends] of it (Proofs: walk_t_walk), so this is the program the goroutine executes
+   between creation and return when nobody cancels. *)
+Inductive act := ALookup | ASend (id : Z).
+
+Fixpoint sends (l : list act) : list Z :=
+  match l with [] => [] | ALookup :: r => sends r | ASend id :: r => id :: sends r end.
+
+Section WalkT.
+  Variable ds : Z -> hist.
+
+  Fixpoint walk_loop_t (rec : Z -> list Z -> list Z -> status * list Z * list act)
+           (id : Z) (path : list Z) (ms : list Z) (vis : list Z) (acts : list act)
+    : status * list Z * list act :=
+    match ms with
+    | [] => (SOk, id :: vis, acts ++ [ASend id])
+    | mid :: rest =>
+        if memZ mid path then (SOk, vis, acts)
+        else
+          match rec mid (path ++ [mid]) vis with
+          | (SOk, vis', a') => walk_loop_t rec id path rest vis' (acts ++ a')
+          | (s, vis', a') => (s, vis', acts ++ a')
+          end
+    end.
+
+  Fixpoint walk_t (fuel : nat) (id : Z) (path : list Z) (vis : list Z) : status * list Z * list act :=
+    match fuel with
+    | O => (SFuel, vis, [])
+    | S f =>
+        if memZ id vis then (SOk, vis, [])
+        else
+          match ds id with                                (* one lookup *)
+          | HNotFound => (SOk, vis, [ALookup])
+          | HErr => (SErr, vis, [ALookup])
+          | HFound versions => walk_loop_t (walk_t f) id path (rel_members versions) vis [ALookup]
+          end
+    end.
+
+  Fixpoint order_from_t (fuel : nat) (ids : list Z) (vis : list Z) : status * list Z * list act :=
+    match ids with
+    | [] => (SOk, vis, [])
+    | id :: rest =>
+        match walk_t fuel id [] vis with
+        | (SOk, vis', a) =>
+            match order_from_t fuel rest vis' with
+            | (s, vis'', a') => (s, vis'', a ++ a')
+            end
+        | r => r
+        end
+    end.
+
+  (* the program of the producer goroutine for a request list *)
+  Definition program (fuel : nat) (ids : list Z) : status * list act :=
+    match order_from_t fuel ids [] with (s, _, a) => (s, a) end.
+End WalkT.
+
 (* ------------------------------------------------------------------ the goroutine protocol
 
    Producer P, consumer side C (Next / Close / cancel), one unbuffered channel, one context
    DERIVED from the caller's (Close cancels it; cancelling the caller's context cancels it too).
-   P is abstracted to the sequence of sends the walk performs ([todo], by the theorems above a
-   finite list), with datasource lookups before each of them.  Every blocking point of P
-   observes the derived context: the send is a select with ctx.Done(), and the lookup is handed
-   that same context (o.ds.RelationHistory(o.ctx, id)); the datasource is assumed to honour
-   the context it is given: a lookup in progress ends with an error once that context is done. *)
+   P executes a finite program [prog : list act] (for the real producer: [program ds fuel ids],
+   finite because the walk terminates -- C14_walk_terminates).  Where the Go code looks at the
+   context:
+     - NOT before a lookup: walk calls o.ds.RelationHistory(o.ctx, id) without testing ctx;
+     - a lookup in progress may return its answer at any time, cancelled or not (datasources
+       that ignore the context, such as osm.HistoryDatasource), or -- once the context is
+       cancelled -- end with the context's error (datasources that honour it; the lookup is
+       handed the derived context);
+     - before a send: `if o.ctx.Err() != nil { return }`, then the select of the send with
+       ctx.Done(); a consumer already blocked in Next may still receive the id when the context
+       is cancelled at the same moment (Go's select chooses among the ready cases). *)
 Inductive pstate :=
-| PRun (todo : list Z)            (* between lookups and sends: walking *)
-| PLookup (todo : list Z)         (* inside o.ds.RelationHistory(o.ctx, id) *)
-| PSend (id : Z) (todo : list Z)  (* blocked in  select { case o.out <- id: ; case <-ctx.Done(): } *)
-| PDone.                          (* returned: channel closed, wg.Done() *)
+| PRun (prog : list act)            (* between actions: walking *)
+| PLookup (prog : list act)         (* inside o.ds.RelationHistory(o.ctx, id); prog = what follows *)
+| PSend (id : Z) (prog : list act)  (* blocked in  select { case o.out <- id: ; case <-ctx.Done(): } *)
+| PDone.                            (* returned: channel closed, wg.Done() *)
 
 Record sys := { prod : pstate; cancelled : bool; received : list Z }.
 
 Inductive step : sys -> sys -> Prop :=
-| st_lookup_start : forall todo c r,       (* the walk calls the datasource (it does not look at ctx first) *)
-    step {| prod := PRun todo; cancelled := c; received := r |}
-         {| prod := PLookup todo; cancelled := c; received := r |}
-| st_lookup_return : forall todo r,        (* the lookup returns its answer *)
-    step {| prod := PLookup todo; cancelled := false; received := r |}
-         {| prod := PRun todo; cancelled := false; received := r |}
-| st_lookup_cancelled : forall todo r,     (* the lookup sees its (derived) context done: error, walk returns *)
-    step {| prod := PLookup todo; cancelled := true; received := r |}
+| st_lookup_start : forall p c r,          (* the walk calls the datasource (no ctx test first) *)
+    step {| prod := PRun (ALookup :: p); cancelled := c; received := r |}
+         {| prod := PLookup p; cancelled := c; received := r |}
+| st_lookup_return : forall p c r,         (* the lookup returns its answer -- cancelled or not *)
+    step {| prod := PLookup p; cancelled := c; received := r |}
+         {| prod := PRun p; cancelled := c; received := r |}
+| st_lookup_cancelled : forall p r,        (* the lookup sees its (derived) context done: error, walk returns *)
+    step {| prod := PLookup p; cancelled := true; received := r |}
          {| prod := PDone; cancelled := true; received := r |}
-| st_walk_send : forall id todo c r,       (* the walk reaches its next send (ctx.Err() == nil) *)
-    step {| prod := PRun (id :: todo); cancelled := c; received := r |}
-         {| prod := PSend id todo; cancelled := c; received := r |}
-| st_walk_cancelled : forall todo r,       (* if o.ctx.Err() != nil { return } *)
-    step {| prod := PRun todo; cancelled := true; received := r |}
+| st_walk_send : forall id p r,            (* ctx.Err() == nil: the walk enters the select of the send *)
+    step {| prod := PRun (ASend id :: p); cancelled := false; received := r |}
+         {| prod := PSend id p; cancelled := false; received := r |}
+| st_walk_cancelled : forall id p r,       (* if o.ctx.Err() != nil { return } *)
+    step {| prod := PRun (ASend id :: p); cancelled := true; received := r |}
          {| prod := PDone; cancelled := true; received := r |}
 | st_walk_end : forall c r,                (* all ids walked *)
     step {| prod := PRun []; cancelled := c; received := r |}
          {| prod := PDone; cancelled := c; received := r |}
-| st_rendezvous : forall id todo r,        (* Next receives: only before cancellation is seen *)
-    step {| prod := PSend id todo; cancelled := false; received := r |}
-         {| prod := PRun todo; cancelled := false; received := r ++ [id] |}
-| st_send_cancelled : forall id todo r,    (* case <-o.ctx.Done(): return o.ctx.Err() *)
-    step {| prod := PSend id todo; cancelled := true; received := r |}
+| st_rendezvous : forall id p c r,         (* Next receives -- possibly while the context is being cancelled *)
+    step {| prod := PSend id p; cancelled := c; received := r |}
+         {| prod := PRun p; cancelled := c; received := r ++ [id] |}
+| st_send_cancelled : forall id p r,       (* case <-o.ctx.Done(): return o.ctx.Err() *)
+    step {| prod := PSend id p; cancelled := true; received := r |}
          {| prod := PDone; cancelled := true; received := r |}
 | st_cancel : forall p r,                  (* Close() / parent context cancelled, at any time *)
     step {| prod := p; cancelled := false; received := r |}
          {| prod := p; cancelled := true; received := r |}.
 
-(* producer steps left before it must have returned, once the context is cancelled *)
+(* steps the system can still make once the context is cancelled: bounded by the rest of the
+   program up to its next send (every lookup left may still be started and may return) *)
+Fixpoint lookups_before_send (p : list act) : nat :=
+  match p with ALookup :: r => S (lookups_before_send r) | _ => O end.
+
 Definition after_cancel_bound (p : pstate) : nat :=
-  match p with PRun _ => 2 | PLookup _ => 1 | PSend _ _ => 1 | PDone => 0 end.
+  match p with
+  | PRun prog => 2 * lookups_before_send prog + 1
+  | PLookup prog => 2 * lookups_before_send prog + 2
+  | PSend _ prog => 2 * lookups_before_send prog + 2
+  | PDone => 0
+  end.
